@@ -189,7 +189,16 @@ fn gen_stream(ctx: &mut Ctx, light: bool) -> StreamCase {
     let long_history = !light && !near_max && ctx.index % 3001 == 17;
     if near_max || long_history {
         class_sel = 0;
-        n = if long_history { ctx.rng.range(70, 110) as usize } else { ctx.rng.range(1, 4) as usize };
+        // 150-320 messages of ~30 KiB on average: 4-10 MiB through one reader; 1 in 8 around 25-45 MiB
+        n = if long_history {
+            if ctx.rng.chance(1, 8) {
+                ctx.rng.range(800, 1400) as usize
+            } else {
+                ctx.rng.range(150, 320) as usize
+            }
+        } else {
+            ctx.rng.range(1, 4) as usize
+        };
     }
     let near_max_at = if near_max { ctx.rng.usize_below(n) } else { usize::MAX };
     let mut bytes = vec![];
